@@ -12,6 +12,7 @@ import importlib
 import json
 import multiprocessing
 import os
+import re
 import sys
 import time
 import traceback
@@ -105,14 +106,17 @@ def _shard(args):
         mod = _load(prop)
         sub = {s.name: s for s in mod.SUBCHECKS}[sub_name]
         col = Collector(sub)
+        thin = OPT_PASS          # the second pass (interpreter started with -O) takes every third enumerated case ...
         if sub.enumerate is not None:
             for idx, case in enumerate(sub.enumerate(tier)):
-                if idx % nshards == shard:
+                if idx % nshards == shard and (not thin or (idx // nshards) % 3 == seed % 3):
                     col.record(case)
         if sub.strategy is not None:
             import hypothesis
             from hypothesis import HealthCheck, Phase, given, settings
             n = sub.n[tier]
+            if thin:
+                n = max(20, n // 4)       # ... and a quarter of the generated ones
             strat = sub.strategy(tier)
 
             @hypothesis.seed(seed * 1000 + shard)
@@ -129,6 +133,40 @@ def _shard(args):
     except BaseException:
         return ('err', 'shard %s/%s of %s.%s: %s' % (shard, nshards, prop, sub_name,
                                                      traceback.format_exc()))
+
+
+OPT_PASS = bool(os.environ.get('VERIF_OPT_PASS'))
+
+
+def _optimised_pass(prop, tier, seed):
+    """The same check once more in an interpreter started with -O (assert statements and `if __debug__` blocks are
+    compiled away - a common deployment setting under which every property must hold just the same).  Thinned; its
+    violations are this check's violations.  -> (exit code, lines to print, cases)"""
+    import subprocess
+    env = dict(os.environ, VERIF_OPT_PASS='1', VERIF_NO_EVIDENCE='1', VERIF_SEED=str(seed))
+    env.pop('PYTHONOPTIMIZE', None)
+    pr = subprocess.run([sys.executable, '-O', '-m', 'pbt.runner', prop, tier], cwd=core.VERIF_DIR, env=env,
+                        capture_output=True, text=True)
+    lines, cases = [], 0
+    take = False
+    for ln in pr.stdout.splitlines():
+        if ln.startswith('VIOLATION') or ln.startswith('KNOWN-FINDING'):
+            take = ln.startswith('VIOLATION')
+            if take:
+                lines.append(ln)
+        elif take and ln.startswith('  '):
+            lines.append(ln)
+            if ln.startswith('  key='):
+                lines.append('  (seen in the pass that runs the interpreter with -O: replay re-executes itself that way)')
+        else:
+            take = False
+            m = re.match(r'^%s %s seed=\d+: (\d+) cases' % (prop, tier), ln)
+            if m:
+                cases = int(m.group(1))
+    if pr.returncode not in (0, 1) or (pr.returncode == 1 and not lines):
+        sys.stderr.write('HARNESS ERROR in the -O pass (exit %d):\n%s\n' % (pr.returncode, (pr.stderr or pr.stdout)[-3000:]))
+        return 2, [], cases
+    return pr.returncode, lines, cases
 
 
 def _shrink(mod, sub, key, tier, seed, budget=400):
@@ -272,6 +310,15 @@ def run_property(prop, tier, seed):
         lines.append('  key=%s' % key)
         lines.append('  ' + detail.strip().replace('\n', '\n  ')[:1200])
 
+    opt_cases = None
+    if nviol == 0 and not OPT_PASS and not sys.flags.optimize and not os.environ.get('VERIF_NO_OPT_PASS'):
+        rc, olines, opt_cases = _optimised_pass(prop, tier, seed)
+        if rc == 2:
+            return 2
+        if rc == 1:
+            nviol += sum(1 for ln in olines if ln.startswith('VIOLATION'))
+            lines.extend(olines)
+
     evals = sum(m['evals'] for m in merged.values()) + n_regress
     hashes = set()
     for name, m in merged.items():
@@ -298,6 +345,9 @@ def run_property(prop, tier, seed):
         'regression_replays': n_regress,
         'known_finding_hits': dict(known_hits),
         'excluded_by_construction': getattr(mod, 'EXCLUSIONS', []),
+        'optimised_interpreter_pass': ({'cases': opt_cases, 'note': 'the same subchecks re-run in a python -O child '
+                                        '(every third enumerated case, a quarter of the generated ones, all replays)'}
+                                       if opt_cases is not None else None),
     }
     ev = {
         'property_id': prop, 'tier': tier, 'seed': seed, 'level': mod.LEVEL, 'coverage': cov,
@@ -311,8 +361,9 @@ def run_property(prop, tier, seed):
     for ln in lines:
         print(ln)
     inner_total = sum(m['inner'] for m in merged.values())
-    print('%s %s seed=%d: %d cases, %d distinct non-trivial, %d violation key(s), %.1fs' % (
-        prop, tier, seed, evals, len(hashes), nviol, time.time() - t0))
+    print('%s %s seed=%d: %d cases, %d distinct non-trivial, %d violation key(s), %.1fs%s' % (
+        prop, tier, seed, evals, len(hashes), nviol, time.time() - t0,
+        '' if opt_cases is None else ' (+%d cases under python -O)' % opt_cases))
     for name, m in merged.items():
         print('  %-14s %7d cases  %s' % (name, m['evals'], dict(sorted(m['labels'].items()))))
     return 1 if nviol else 0
@@ -320,6 +371,8 @@ def run_property(prop, tier, seed):
 
 def replay(path):
     rp = core.read_replay(path)
+    if rp.get('python_optimize') and not sys.flags.optimize:
+        os.execv(sys.executable, [sys.executable, '-O', '-m', 'pbt.runner', '--replay', path])
     mod = _load(rp['property'])
     _quiet_twisted()
     sub = {s.name: s for s in mod.SUBCHECKS}[rp['subcheck']]
